@@ -196,6 +196,8 @@ def run_check(pid, tier, seed, jobs):
         print("HARNESS-ERROR property=%s\n%s" % (pid, errors[0]), file=sys.stderr)
         return 2
 
+    regressions = run_regressions(pid)
+
     # merge in shard order: verdict and counts do not depend on scheduling
     tot = Acc(pid)
     for res in results:
@@ -243,6 +245,7 @@ def run_check(pid, tier, seed, jobs):
         "outcomes": {str(k): v for k, v in sorted(tot.outcomes.items(), key=lambda kv: -kv[1])[:25]},
         "known_findings_seen": {k: v for k, v in sorted(tot.known.items())},
         "shards": len(shards),
+        "regression_replays": regressions["replayed"],
     }
     if level == "model_checking":
         coverage["states"] = tot.states
@@ -259,7 +262,7 @@ def run_check(pid, tier, seed, jobs):
         "coverage": coverage,
         "assumptions": meta.get("assumptions", []),
         "wall_s": round(wall, 2),
-        "violations": tot.unknown_total,
+        "violations": tot.unknown_total + len(regressions["failed"]),
     }
     os.makedirs(os.path.join(VERIF, "evidence"), exist_ok=True)
     with open(os.path.join(VERIF, "evidence", "%s.json" % pid), "w") as fh:
@@ -286,6 +289,9 @@ def run_check(pid, tier, seed, jobs):
             "KNOWN-FINDING: property=%s %s [%s, %d cases this run]"
             % (pid, f["what"], fid, n)
         )
+    for path, again in regressions["failed"]:
+        print("VIOLATION property=%s replay=%s" % (pid, path))
+        print("  regression of a recorded counterexample: %s" % json.dumps(jsonable(again[0].get("detail")))[:600])
     if tot.unknown_total:
         seen = set()
         for v in tot.unknown:
@@ -302,10 +308,33 @@ def run_check(pid, tier, seed, jobs):
             % (pid, tot.unknown_total, min(len(seen), MAX_REPLAYS))
         )
         return 1
+    if regressions["failed"]:
+        return 1
     if tot.evaluations == 0:
         print("HARNESS-ERROR property=%s nothing explored" % pid, file=sys.stderr)
         return 2
     return 0
+
+
+def run_regressions(pid):
+    """Replay the committed counterexamples of repaired defects
+    (/verif/regressions/<ID>-*.json, same format as replay files)."""
+    import glob
+
+    from . import findings, world
+
+    world.setup()
+    out = {"replayed": 0, "failed": []}
+    for path in sorted(glob.glob(os.path.join(VERIF, "regressions", "%s-*.json" % pid))):
+        with open(path) as fh:
+            doc = json.load(fh)
+        mod = importlib.import_module(doc["check"])
+        again = mod.replay(unjson(doc["violation"])["case"])
+        out["replayed"] += 1
+        again = [a for a in again or [] if findings.classify(pid, a) is None]
+        if again:
+            out["failed"].append((path, again))
+    return out
 
 
 def run_replay(pid, path):
